@@ -102,7 +102,7 @@ impl Case17 {
                     for i in 0..v3.len() {
                         let want = self.alpha * v1[i] + self.beta * v2[i];
                         let ok = if exact {
-                            let big = [m1[h].as_ref(), m2[h].as_ref(), m3[h].as_ref()].iter().any(|m| m.map_or(true, |m| m[i].abs() * (self.alpha.abs() + self.beta.abs() + 1.0) >= EXACT_LIMIT));
+                            let big = [m1[h].as_ref(), m2[h].as_ref(), m3[h].as_ref()].iter().any(|m| m.map_or(true, |m| m[i].abs() * (self.alpha.abs() + self.beta.abs() + 1.0) >= exact_limit()));
                             if big {
                                 true
                             } else {
